@@ -40,6 +40,10 @@ func oracle(c Case) *ev.Verdict {
 		e := o.Escapes[0]
 		return ev.V("panic:"+e.Op+":"+e.Frame, "%s panicked: %s\n%s", e.Op, e.Value, p.Text(nil))
 	}
+	if o.Again != "" {
+		// the verdict of a schema object is the verdict, also when it is asked for a second time
+		return ev.V("second-call-differs:"+strings.SplitN(o.Again, " ", 2)[0], "%s\n%s", o.Again, p.Text(nil))
+	}
 	// a type or rule that cannot even be registered makes the project rejected as a whole
 	var regErr *sut.ErrInfo
 	for _, e := range o.AddErr {
